@@ -1299,6 +1299,9 @@ class LineEval:
                 return Builtin(t) if t else Top('type of symbolic')
             r = self.ip.typeof(v, n, ctx.clo.scope)
             return Top(r.reason) if isinstance(r, Unknown) else r
+        if name in ('input', 'open', 'exec', 'eval', 'id', 'hash', 'setattr', 'delattr', 'globals', 'locals', 'vars', 'print', '__import__', 'compile', 'breakpoint'):
+            self.event('effect', f'{name}() inside a definition', n, rel)
+            return None if name in ('print', 'setattr', 'delattr') else Top(name)
         if not sym:
             try:
                 r = self.ip.call_builtin(name, args, kwargs, n, ctx.clo.scope)
